@@ -141,6 +141,42 @@ func shortcutUnits() []unit {
 
 // ---- the allocation function with every input free ---------------------------
 
+// ---- the read of the existing entry fails -------------------------------------
+
+func readFaultUnits() []unit {
+	s := R.Sec("pin-with-state-read-fault")
+	s.Bounds["what"] = "Cluster.Pin while the first read of the shared state's datastore fails with an error other than 'not found': peers 1..3, full metric alphabet, every positive factor pair, every consistent holder set, every priority list; the request may fail (pinset unchanged) or must satisfy the whole oracle"
+	var units []unit
+	for n := 1; n <= 3; n++ {
+		n := n
+		for _, alloc := range []string{"ascend", "descend"} {
+			alloc := alloc
+			units = append(units, unit{
+				name: fmt.Sprintf("readfault-n%d-%s", n, alloc),
+				opts: rigOpts{alloc: alloc, defMin: -1, defMax: -1},
+				body: func(r *rig) {
+					for _, st := range vectors(n, fullAlphabet) {
+						r.setMetrics(n, st, defaultNonNum)
+						for _, pr := range positivePairs {
+							for _, cur := range subsets(n) {
+								if len(cur) == 0 || len(cur) > pr.mx {
+									continue
+								}
+								for _, prio := range prioLists(n) {
+									c := Case{N: n, St: st, Cur: cur, Existing: "alloc", Prio: prio, Min: pr.mn, Max: pr.mx,
+										DefMin: -1, DefMax: -1, Alloc: alloc, Entry: "pin-read-fault", Excluded: -1}
+									r.evaluate("pin-with-state-read-fault", c)
+								}
+							}
+						}
+					}
+				},
+			})
+		}
+	}
+	return units
+}
+
 func allocateUnits() []unit {
 	s := R.Sec("allocate-direct")
 	s.Bounds["what"] = "(*Cluster).allocate called directly (exported to the harness by a build-overlay file): peers 1..3, full metric alphabet, every positive factor pair, every current holder set with |cur| <= max, every priority list of <= 2 peers, excluded peer: none or any peer - holder or not, on the priority list or not"
